@@ -433,8 +433,10 @@ class RetryExecutor(CanCustomizeBind, Executor):
         assert found_job, "BUG: no job associated with delegate %s" % delegate_future
 
         if delegate_future.cancelled():
-            # nothing to do, retrying on cancel is not allowed
+            # retrying on cancel is not allowed; if the delegate was cancelled by
+            # someone other than us, make sure our future ends up cancelled too
             self._log.debug("Delegate was cancelled: %s", delegate_future)
+            found_job.future._me_delegate_cancelled()
             return
 
         (should_retry, sleep_time) = eval_policy(found_job, self._log)
